@@ -321,6 +321,43 @@ def fixed_histories(rep):
                              % (data.hex(), name, pname, a, b), {'kind': 'fixed-history', 'prior': pname, 'spec': name, 'bytes': data.hex()})
 
 
+def cross_call_forms(rep):
+    """the same identifier (class, number) met in both forms - primitive and constructed - by successive calls, by
+    different decoders and by different schemas: each outcome is what the octets denote (written out here), whatever
+    was decoded before in the process"""
+    from pyasn1.type import tag, namedtype
+    from harness import wire
+    CLS = {'c': tag.tagClassContext, 'a': tag.tagClassApplication, 'p': tag.tagClassPrivate}
+    for cls in 'cap':
+        for num in (5, 30, 31, 100, 1000, 2 ** 32):
+            ostr = univ.OctetString().subtype(implicitTag=tag.Tag(CLS[cls], tag.tagFormatSimple, num))
+            integer = univ.Integer().subtype(implicitTag=tag.Tag(CLS[cls], tag.tagFormatSimple, num))
+            record = univ.Sequence(componentType=namedtype.NamedTypes(namedtype.NamedType('a', univ.Integer()))).subtype(
+                implicitTag=tag.Tag(CLS[cls], tag.tagFormatSimple, num))
+            prim = wire.emit_ident(cls, False, num) + b'\x04abcd'
+            cons = wire.emit_ident(cls, True, num) + b'\x08\x04\x02ab\x04\x02cd'
+            cons_indef = wire.emit_ident(cls, True, num) + b'\x80\x04\x02ab\x04\x02cd\x00\x00'
+            int_enc = wire.emit_ident(cls, False, num) + b'\x01\x07'
+            rec_enc = wire.emit_ident(cls, True, num) + b'\x03\x02\x01\x09'
+            calls = [('ber', ostr, prim, 'abcd'), ('ber', ostr, cons, 'abcd'), ('ber', ostr, prim, 'abcd'), ('cer', ostr, cons_indef, 'abcd'),
+                     ('der', integer, int_enc, '7'), ('ber', record, rec_enc, 'rec9'), ('der', integer, int_enc, '7'),
+                     ('ber', ostr, cons, 'abcd'), ('der', ostr, prim, 'abcd'), ('ber', record, rec_enc, 'rec9')]
+            for i, (cdc, spec, data, want) in enumerate(calls):
+                rep.count('cross-call-forms')
+                try:
+                    v, rest = codec.DEC[cdc].decode(data, asn1Spec=spec)
+                    got = ('rec%d' % int(v['a'])) if want.startswith('rec') else (str(int(v)) if want.isdigit() else bytes(v).decode())
+                    if rest:
+                        got += '+rest'
+                except Exception as e:  # noqa
+                    got = 'ERR ' + type(e).__name__
+                if got != want:
+                    rep.fail('history-dependent:identifier-forms', 'call %d (%s, %s) after calls on the same identifier in the other form '
+                             'gives %s, the octets denote %s' % (i, cdc, data.hex(), got, want),
+                             {'kind': 'cross-call-forms', 'class': cls, 'number': num, 'call': i, 'bytes': data.hex()})
+                    break
+
+
 def interleave(rep, cases, rng):
     """k suspended streaming decoders over disjoint streams stepped by a seeded scheduler"""
     k = rng.randrange(2, 5)
@@ -440,6 +477,7 @@ def run(rep, tier, seed):
         if len(pool) < 400:
             pool.append(case)
     fixed_histories(rep)
+    cross_call_forms(rep)
     for i in range(60 if tier == 'quick' else 3000):
         history(rep, rng.sample(pool, min(len(pool), 6)), rng)
     for i in range(60 if tier == 'quick' else 3000):
